@@ -1,29 +1,232 @@
 package interp
 
 import (
+	"go/types"
+
+	"gosym/sym"
+
 	"golang.org/x/tools/go/ssa"
 )
 
+// ---------------------------------------------------------------------------
+// regexp: only the QueryParameters pattern `\$(\d+)|\?` is modelled, by a
+// hand-written leftmost-first matcher. Any other pattern is unsupported.
+// ---------------------------------------------------------------------------
+
+const queryParamsPattern = `\$(\d+)|\?`
+
 func modelRegexpCompile(e *Exec, c *frame, fn *ssa.Function, a []Value) Value {
-	e.unsupported("regexp model TODO")
-	return nil
+	pat, ok := e.concreteString(a[0].(Slice))
+	if !ok {
+		e.unsupported("regexp.MustCompile with symbolic pattern")
+	}
+	t := e.M.namedType("regexp", "Regexp")
+	p := new(Value)
+	*p = zero(t)
+	if e.regexps == nil {
+		e.regexps = map[*Value]string{}
+	}
+	e.regexps[p] = pat
+	return p
 }
+
 func modelFindAllStringSubmatch(e *Exec, c *frame, fn *ssa.Function, a []Value) Value {
-	e.unsupported("regexp model TODO")
-	return nil
+	re := a[0].(*Value)
+	if e.regexps[re] != queryParamsPattern {
+		e.unsupported("regexp model covers only %q, got %q", queryParamsPattern, e.regexps[re])
+	}
+	s := a[1].(Slice)
+	limit := a[2].(sym.Sc)
+	if !limit.K || limit.Signed() >= 0 {
+		e.unsupported("FindAllStringSubmatch with n >= 0")
+	}
+	n := e.ConcInt(s.Len)
+	base := e.o(s)
+	at := func(i int) sym.Sc { return s.St.peek(base + i).(sym.Sc) }
+	isDigit := func(b sym.Sc) sym.Sc {
+		return sym.And(sym.Ule(sym.Const(8, '0'), b), sym.Ule(b, sym.Const(8, '9')))
+	}
+	strT := types.Typ[types.String]
+	sliceOfStr := types.NewSlice(strT)
+	sub := func(lo, hi int) Slice {
+		if lo == hi {
+			return Slice{Len: i64zero, Cap: i64zero}
+		}
+		return Slice{St: s.St, Off: i64(base + lo), Len: i64(hi - lo), Cap: i64(hi - lo)}
+	}
+	var matches []Value
+	for i := 0; i < n; {
+		b := at(i)
+		if e.Branch(sym.Eq(b, sym.Const(8, '$'))) {
+			j := i + 1
+			for j < n && e.Branch(isDigit(at(j))) {
+				j++
+			}
+			if j > i+1 {
+				st := e.newStore(strT, i64(2))
+				*st.cell(0) = sub(i, j)
+				*st.cell(1) = sub(i+1, j)
+				matches = append(matches, Slice{St: st, Len: st.N, Cap: st.N})
+				i = j
+				continue
+			}
+			i++
+			continue
+		}
+		if e.Branch(sym.Eq(b, sym.Const(8, '?'))) {
+			st := e.newStore(strT, i64(2))
+			*st.cell(0) = sub(i, i+1)
+			*st.cell(1) = Slice{Len: i64zero, Cap: i64zero}
+			matches = append(matches, Slice{St: st, Len: st.N, Cap: st.N})
+		}
+		i++
+	}
+	if len(matches) == 0 {
+		return Slice{Len: i64zero, Cap: i64zero}
+	}
+	out := e.newStore(sliceOfStr, i64(len(matches)))
+	for i, m := range matches {
+		*out.cell(i) = m
+	}
+	return Slice{St: out, Len: out.N, Cap: out.N}
 }
+
+// ---------------------------------------------------------------------------
+// pgx pgtype.Map: documented contract only (DESIGN §3). Per-type codec
+// correctness is pgx's and outside every claim.
+// ---------------------------------------------------------------------------
+
+const (
+	oidText    = 25
+	oidVarchar = 1043
+)
+
 func modelPgNewMap(e *Exec, c *frame, fn *ssa.Function, a []Value) Value {
-	e.unsupported("pgtype model TODO")
-	return nil
+	t := e.M.namedType("github.com/jackc/pgx/v5/pgtype", "Map")
+	p := new(Value)
+	*p = zero(t)
+	e.noteAllocAny(p)
+	return p
 }
+
+// Encode: value nil / nil pointer / invalid pgtype.Text -> (nil, nil);
+// string, []byte, *string, valid pgtype.Text on a text-like OID -> buf ++ bytes;
+// anything else -> error. Declared footprint: writes its receiver (plan
+// memoisation, pgx pgtype.go PlanEncode).
 func modelPgEncode(e *Exec, c *frame, fn *ssa.Function, a []Value) Value {
-	e.unsupported("pgtype model TODO")
-	return nil
+	recv := a[0].(*Value)
+	if recv == nil {
+		e.goPanic("invalid memory address or nil pointer dereference")
+	}
+	oid := a[1].(sym.Sc)
+	val := a[3].(Iface)
+	buf := a[4].(Slice)
+	null := Tuple{Slice{Len: i64zero, Cap: i64zero}, Iface{}}
+	if val.T == nil {
+		return null
+	}
+	e.noteWrite(recv) // memoised plans
+	fail := func(msg string) Value {
+		return Tuple{Slice{Len: i64zero, Cap: i64zero}, e.newErrorString("unable to encode: " + msg)}
+	}
+	// text-like OIDs only
+	textLike := sym.Or(sym.Eq(oid, sym.Const(32, oidText)), sym.Eq(oid, sym.Const(32, oidVarchar)))
+	if !e.Branch(textLike) {
+		e.unsupported("pgtype.Map.Encode model covers text-like OIDs only")
+	}
+	v := val.V
+	t := val.T
+	for {
+		pt, isPtr := under(t).(*types.Pointer)
+		if !isPtr {
+			break
+		}
+		p := v.(*Value)
+		if p == nil {
+			return null
+		}
+		v = *p
+		t = pt.Elem()
+	}
+	switch {
+	case isString(t):
+		return Tuple{e.appendBytes(buf, v.(Slice)), Iface{}}
+	case isByteSlice(t):
+		s := v.(Slice)
+		if s.St == nil {
+			return null
+		}
+		return Tuple{e.appendBytes(buf, s), Iface{}}
+	}
+	if n, ok := t.(*types.Named); ok && n.Obj().Pkg() != nil && n.Obj().Pkg().Path() == "github.com/jackc/pgx/v5/pgtype" && n.Obj().Name() == "Text" {
+		st := v.(Struct)
+		if !e.Branch(st[1].(sym.Sc)) {
+			return null
+		}
+		return Tuple{e.appendBytes(buf, st[0].(Slice)), Iface{}}
+	}
+	return fail(t.String())
 }
+
+func isByteSlice(t types.Type) bool {
+	sl, ok := under(t).(*types.Slice)
+	if !ok {
+		return false
+	}
+	b, ok := under(sl.Elem()).(*types.Basic)
+	return ok && b.Kind() == types.Uint8
+}
+
+// appendBytes is append(buf, s...) that always yields a non-nil slice.
+func (e *Exec) appendBytes(buf, s Slice) Slice {
+	nb, ns := e.ConcInt(buf.Len), e.ConcInt(s.Len)
+	st := e.newStore(byteT, i64(nb+ns))
+	for i := 0; i < nb; i++ {
+		*st.cell(i) = buf.St.peek(e.o(buf) + i)
+	}
+	for i := 0; i < ns; i++ {
+		*st.cell(nb + i) = s.St.peek(e.o(s) + i)
+	}
+	return Slice{St: st, Len: st.N, Cap: st.N}
+}
+
+// TypeForOID: text and varchar are known (TextCodec, executed from pgx's own
+// code); the OIDs 0 and >= 100000 are unknown; other OIDs are not modelled.
 func modelPgTypeForOID(e *Exec, c *frame, fn *ssa.Function, a []Value) Value {
-	e.unsupported("pgtype model TODO")
+	recv := a[0].(*Value)
+	if recv == nil {
+		e.goPanic("invalid memory address or nil pointer dereference")
+	}
+	e.noteRead(recv)
+	oid := a[1].(sym.Sc)
+	typeT := e.M.namedType("github.com/jackc/pgx/v5/pgtype", "Type")
+	codecT := e.M.namedType("github.com/jackc/pgx/v5/pgtype", "TextCodec")
+	mk := func(name string, id uint64) Value {
+		p := new(Value)
+		*p = Struct{Iface{T: codecT, V: Struct{}}, litString(name), sym.Const(32, id)}
+		return Tuple{p, sym.Bool(true)}
+	}
+	_ = typeT
+	if e.Branch(sym.Eq(oid, sym.Const(32, oidText))) {
+		return mk("text", oidText)
+	}
+	if e.Branch(sym.Eq(oid, sym.Const(32, oidVarchar))) {
+		return mk("varchar", oidVarchar)
+	}
+	unknown := sym.Or(sym.Eq(oid, sym.Const(32, 0)), sym.Ule(sym.Const(32, 100000), oid))
+	if e.Branch(unknown) {
+		return Tuple{(*Value)(nil), sym.Bool(false)}
+	}
+	e.unsupported("pgtype.Map.TypeForOID model covers text/varchar and unknown OIDs only")
 	return nil
 }
+
+func (e *Exec) noteAllocAny(p *Value) {
+	if e.foot != nil {
+		e.foot.newObj(e, p)
+	}
+}
+
 func modelTLSServer(e *Exec, c *frame, fn *ssa.Function, a []Value) Value {
 	e.unsupported("tls model TODO")
 	return nil
